@@ -161,12 +161,12 @@ Error BaseEmitter::_emitI(InstId inst_id, const Operand_& o0, const Operand_& o1
 ASMJIT_END_NAMESPACE
 
 alignas(16) static unsigned char emitter_mem[sizeof(BaseEmitter)];
-static uint32_t dbg_P, dbg_S, dbg_sp0, dbg_spb, dbg_saved, dbg_attr, dbg_da, dbg_ninst;
 
 enum Known { K_NONE, K_C07A, K_C07B };
 // CUSTOM: the frame's preserved sets are extended as a user-defined convention may do (k, mm, more xmm registers)
-template<Arch ARCH, Known KNOWN, bool CUSTOM, bool VECS>
-static void run(Platform plat, PlatformABI pabi, CallConvId ccid) {
+template<Arch ARCH, Known KNOWN, bool CUSTOM, bool VECS, CallConvId CCID>
+static void run(Platform plat, PlatformABI pabi) {
+  constexpr CallConvId ccid = CCID;
   using namespace mach;
   constexpr bool k32 = ARCH == Arch::kX86;
   constexpr uint32_t NV = 16;     // xmm0-15 (light-call with AVX-512 registers: thorough harness of h_frame covers the layout)
@@ -181,6 +181,8 @@ static void run(Platform plat, PlatformABI pabi, CallConvId ccid) {
   fd._arg_stack_size = (nondet_u32() & 0xFC);
   FuncFrame f;
   V_ASSERT(f.init(fd) == Error::kOk, "frame init accepted");
+  V_ASSERT(f.arch() == ARCH, "frame arch copied from the convention");
+  f._arch = ARCH;   // re-written as a constant: keeps the index into the arch-traits table concrete for the solver (no-op natively)
   // Groups no built-in convention preserves: asserted to be empty, then written as the constant 0 so that the solver does not
   // unroll the save/restore loops of groups that cannot be saved.
   if (!CUSTOM) {
@@ -194,8 +196,7 @@ static void run(Platform plat, PlatformABI pabi, CallConvId ccid) {
   f.add_dirty_regs(RegGroup::kVec, nondet_u32() & 0xFFFF);
   f.add_dirty_regs(RegGroup::kMask, nondet_u32() & 0xFF);
   f.add_dirty_regs(RegGroup::kX86_MM, nondet_u32() & 0xFF);
-  uint32_t lsz = (nondet_u8() & 7) * W, csz = (nondet_u8() & 7) * W;   // whole words (the machine's memory is word addressed), up to 4 words each
-  V_ASSUME(lsz <= 4 * W && csz <= 4 * W);
+  uint32_t lsz = nondet_u32() & (0xFFFFu & ~(W - 1)), csz = nondet_u32() & (0xFFFFu & ~(W - 1));   // 0..64 KiB, whole machine words
   f.set_local_stack_size(lsz); f.set_call_stack_size(csz);
   uint32_t la = 1u << (nondet_u8() % 7), ca = 1u << (nondet_u8() % 7);
   f.set_local_stack_alignment(la); f.set_call_stack_alignment(ca);
@@ -210,7 +211,6 @@ static void run(Platform plat, PlatformABI pabi, CallConvId ccid) {
   uint32_t pres_gp = f.preserved_regs(RegGroup::kGp), pres_vec = f.preserved_regs(RegGroup::kVec), pres_k = f.preserved_regs(RegGroup::kMask), pres_mm = f.preserved_regs(RegGroup::kX86_MM);
   Error ef = f.finalize();
   V_ASSERT(ef == Error::kOk, "finalize accepted");
-  V_ASSERT(f.push_pop_save_size() == W * (uint32_t)__builtin_popcount(f.saved_regs(RegGroup::kGp)), "dbg P after finalize");
   uint32_t A = f.final_stack_alignment(), N = cc.natural_stack_alignment();
   bool has_fp = f.has_preserved_fp(), has_da = f.has_dynamic_alignment();
 #if KF_C07A   // x86-32: alignment 8 promised without realignment (see h_frame.cpp)
@@ -243,10 +243,8 @@ static void run(Platform plat, PlatformABI pabi, CallConvId ccid) {
   V_ASSERT(ep == Error::kOk, "prolog emitted");
   flush_checks();
   val_t sp_body = gp[4];
-  V_ASSERT(f.push_pop_save_size() == W * (uint32_t)__builtin_popcount(f.saved_regs(RegGroup::kGp)), "dbg P after prolog");
   uint32_t P = f.push_pop_save_size(), S = f.stack_adjustment();
   bool nonempty = S != 0 || f.has_func_calls();
-  dbg_P = P; dbg_S = S; dbg_sp0 = sp0; dbg_spb = sp_body; dbg_saved = f.saved_regs(RegGroup::kGp); dbg_attr = uint32_t(f.attributes()); dbg_da = has_da; dbg_ninst = n_inst;
   verif_observe(sp0 - sp_body); verif_observe(n_inst); verif_observe(n_store);
   if (!has_da) V_ASSERT(sp_body == sp0 - P - S, "body SP = entry SP minus pushes minus adjustment");
   if (nonempty) V_ASSERT(sp_body % A == 0, "inside the body SP has the promised alignment");
@@ -283,53 +281,24 @@ static void run(Platform plat, PlatformABI pabi, CallConvId ccid) {
   if (has_da && has_fp) V_WITNESS("realigned-with-fp");
   if (has_da && !has_fp) V_WITNESS("realigned-with-da-slot");
   if (!has_da && has_fp) V_WITNESS("static-with-fp");
-  if (!has_da && !has_fp && f.saved_regs(RegGroup::kVec) && P) V_WITNESS("static-push-and-vector-saves");
-  if constexpr (k32) { if (f.callee_stack_cleanup()) V_WITNESS("ret-imm"); }
+  if (!has_da && !has_fp && P) V_WITNESS("static-with-pushes");
+  if constexpr (VECS) { if (f.saved_regs(RegGroup::kVec) && P) V_WITNESS("push-and-vector-saves"); }
+  if constexpr (k32 && (CCID == CallConvId::kStdCall || CCID == CallConvId::kFastCall || CCID == CallConvId::kThisCall || CCID == CallConvId::kVectorCall)) { if (f.callee_stack_cleanup()) V_WITNESS("ret-imm"); }
 }
 
-static const CallConvId ids32[8] = { CallConvId::kCDecl, CallConvId::kStdCall, CallConvId::kFastCall, CallConvId::kVectorCall, CallConvId::kThisCall,
-                                     CallConvId::kRegParm3, CallConvId::kRegParm1, CallConvId::kRegParm2 };
-HARNESS h_prolog_x86() {
-  uint32_t k = nondet_u8(); bool win = (k & 8) != 0;
-  run<Arch::kX86, K_NONE, false, false>(win ? Platform::kWindows : Platform::kLinux, win ? PlatformABI::kMSVC : PlatformABI::kGNU, ids32[k & 7]);
-}
-HARNESS h_prolog_x86_kf_C07A() {
-  uint32_t k = nondet_u8(); bool win = (k & 8) != 0;
-  run<Arch::kX86, K_C07A, false, false>(win ? Platform::kWindows : Platform::kLinux, win ? PlatformABI::kMSVC : PlatformABI::kGNU, ids32[k & 7]);
-}
-HARNESS h_prolog_x64_sysv() { run<Arch::kX64, K_NONE, false, false>(Platform::kLinux, PlatformABI::kGNU, CallConvId::kX64SystemV); }
-HARNESS h_prolog_x64_win() { run<Arch::kX64, K_NONE, false, true>(Platform::kWindows, PlatformABI::kMSVC, nondet_bool() ? CallConvId::kX64Windows : CallConvId::kVectorCall); }
-HARNESS h_prolog_x64_light() { run<Arch::kX64, K_NONE, false, true>(Platform::kLinux, PlatformABI::kGNU, CallConvId(uint32_t(CallConvId::kLightCall2) + nondet_u8() % 3)); }
-HARNESS h_prolog_x64_kf_C07B() { run<Arch::kX64, K_C07B, true, true>(Platform::kLinux, PlatformABI::kGNU, CallConvId::kX64SystemV); }
-HARNESS h_prolog_x64_custom() { run<Arch::kX64, K_NONE, true, true>(Platform::kLinux, PlatformABI::kGNU, CallConvId::kX64SystemV); }
-HARNESS h_dbg() {
-  uint32_t k = nondet_u8(); bool win = (k & 8) != 0;
-  Environment env(Arch::kX86, SubArch::kUnknown, Vendor::kUnknown, win ? Platform::kWindows : Platform::kLinux, win ? PlatformABI::kMSVC : PlatformABI::kGNU);
-  FuncDetail fd; fd._call_conv.init(ids32[k & 7], env);
-  for (RegGroup g : Support::enumerate(RegGroup::kMaxVirt)) fd._used_regs[g] = nondet_u32() & fd._call_conv._passed_regs[g];
-  fd._arg_stack_size = (nondet_u32() & 0xFC);
-  FuncFrame f; f.init(fd);
-  f._preserved_regs[RegGroup::kMask] = 0; f._preserved_regs[RegGroup::kX86_MM] = 0; f._preserved_regs[RegGroup::kVec] = 0;
-  f.add_dirty_regs(RegGroup::kGp, nondet_u32() & 0xFFFF);
-  f.add_dirty_regs(RegGroup::kVec, nondet_u32() & 0xFFFF);
-  f.add_dirty_regs(RegGroup::kMask, nondet_u32() & 0xFF);
-  f.add_dirty_regs(RegGroup::kX86_MM, nondet_u32() & 0xFF);
-  f.set_local_stack_size((nondet_u8() & 3) * 4); f.set_call_stack_size((nondet_u8() & 3) * 4);
-  f.set_local_stack_alignment(1u << (nondet_u8() % 7)); f.set_call_stack_alignment(1u << (nondet_u8() % 7));
-  f.add_attributes(FuncAttributes(nondet_u32()) & (FuncAttributes::kHasPreservedFP | FuncAttributes::kHasFuncCalls | FuncAttributes::kX86_AVXEnabled));
-  if (nondet_bool()) { uint32_t sa = nondet_u8() & 7; V_ASSUME(sa != 4); f.set_sa_reg_id(sa); }
-  Error e = f.finalize();
-  V_ASSERT(e == Error::kOk, "dbg fin ok");
-  V_ASSERT(f.push_pop_save_size() == 4 * __builtin_popcount(f.saved_regs(RegGroup::kGp)), "dbg P");
-  V_ASSERT(f.extra_reg_save_size() == 0, "dbg X");
-  mach::W = 4;
-  BaseEmitter* em = reinterpret_cast<BaseEmitter*>(emitter_mem);
-  em->_environment = env;
-  em->_gp_signature = OperandSignature{RegTraits<RegType::kGp32>::kSignature};
-  x86::EmitHelper helper(em, false, false);
-  mach::gp[4] = 0x10000; mach::top = 0x10004; mach::push_lo = 0x10000; mach::viol = 0; mach::ex_valid = false; mach::da_valid = false;
-  for (uint32_t g = 0; g < 4; g++) mach::s_valid[g] = 0;
-  Error ep = helper.emit_prolog(f);
-  V_ASSERT(f.push_pop_save_size() == 4 * __builtin_popcount(f.saved_regs(RegGroup::kGp)), "dbg P after prolog");
-  V_WITNESS("dbg-end");
-}
+// One concrete convention and platform per harness.
+#define HX(name, arch, known, custom, vecs, plat, pabi, cc) HARNESS name() { run<arch, known, custom, vecs, cc>(plat, pabi); }
+HX(h_prolog_x86_cdecl,      Arch::kX86, K_NONE, false, false, Platform::kLinux,   PlatformABI::kGNU,  CallConvId::kCDecl)
+HX(h_prolog_x86_stdcall,    Arch::kX86, K_NONE, false, false, Platform::kWindows, PlatformABI::kMSVC, CallConvId::kStdCall)
+HX(h_prolog_x86_fastcall,   Arch::kX86, K_NONE, false, false, Platform::kWindows, PlatformABI::kMSVC, CallConvId::kFastCall)
+HX(h_prolog_x86_thiscall,   Arch::kX86, K_NONE, false, false, Platform::kWindows, PlatformABI::kMSVC, CallConvId::kThisCall)
+HX(h_prolog_x86_vectorcall, Arch::kX86, K_NONE, false, false, Platform::kWindows, PlatformABI::kMSVC, CallConvId::kVectorCall)
+HX(h_prolog_x86_regparm3,   Arch::kX86, K_NONE, false, false, Platform::kLinux,   PlatformABI::kGNU,  CallConvId::kRegParm3)
+HX(h_prolog_x86_light2,     Arch::kX86, K_NONE, false, true,  Platform::kLinux,   PlatformABI::kGNU,  CallConvId::kLightCall2)
+HX(h_prolog_x86_kf_C07A,    Arch::kX86, K_C07A, false, false, Platform::kLinux,   PlatformABI::kGNU,  CallConvId::kCDecl)
+HX(h_prolog_x64_sysv,       Arch::kX64, K_NONE, false, false, Platform::kLinux,   PlatformABI::kGNU,  CallConvId::kX64SystemV)
+HX(h_prolog_x64_win,        Arch::kX64, K_NONE, false, true,  Platform::kWindows, PlatformABI::kMSVC, CallConvId::kX64Windows)
+HX(h_prolog_x64_vectorcall, Arch::kX64, K_NONE, false, true,  Platform::kWindows, PlatformABI::kMSVC, CallConvId::kVectorCall)
+HX(h_prolog_x64_light3,     Arch::kX64, K_NONE, false, true,  Platform::kLinux,   PlatformABI::kGNU,  CallConvId::kLightCall3)
+HX(h_prolog_x64_custom,     Arch::kX64, K_NONE, true,  true,  Platform::kLinux,   PlatformABI::kGNU,  CallConvId::kX64SystemV)
+HX(h_prolog_x64_kf_C07B,    Arch::kX64, K_C07B, true,  true,  Platform::kLinux,   PlatformABI::kGNU,  CallConvId::kX64SystemV)
